@@ -12,6 +12,7 @@ package remote
 //     chains are valid, which zones are signed / failing), never from the model.
 
 import (
+	"bufio"
 	"bytes"
 	"context"
 	"crypto/ecdsa"
@@ -38,6 +39,7 @@ import (
 	"github.com/foxcpp/maddy/framework/future"
 	"github.com/foxcpp/maddy/framework/log"
 	"github.com/foxcpp/maddy/framework/module"
+	"github.com/foxcpp/maddy/internal/smtpconn"
 	"github.com/foxcpp/maddy/internal/verifshim/vh"
 	miekgdns "github.com/miekg/dns"
 )
@@ -46,6 +48,8 @@ const (
 	c13MX    = "mx.verif.test"
 	c13MXFQ  = "mx.verif.test."
 	c13Canon = "canon.verif.test."
+	// a host name the wrong-name leaf (chain W) is issued for
+	c13OtherName = "other.verif.test"
 )
 
 // c13Owners: the owner names a TLSA record can carry (index = the `owner` field of the record
@@ -58,16 +62,16 @@ const (
 var c13Owners = []string{
 	"_25._tcp." + c13MXFQ,
 	"_25._tcp." + c13Canon,
-	"_dane.verif.test.",           // shared RRset behind a CNAME; not of the _port._proto.host form
-	"tlsa.verif.test.",            // no underscore label at all
-	"_25._tcp.other.verif.test.",  // base domain: a name the wrong-name leaf is issued for
-	"_tlsa.dane.verif.test.",      // one underscore label; rest: a name the wrong-name leaf is issued for
-	"_25._TCP.MX.Verif.Test.",     // the usual name in another spelling
-	"mx.verif.test.",              // the host itself
-	"_25._tcp._tcp.verif.test.",   // more underscore labels than expected
-	".",                           // the root
-	"_25._tcp.mx.verif.test",      // not fully qualified (in-memory records only)
-	"",                            // empty (in-memory records only)
+	"_dane.verif.test.",          // shared RRset behind a CNAME; not of the _port._proto.host form
+	"tlsa.verif.test.",           // no underscore label at all
+	"_25._tcp.other.verif.test.", // base domain: a name the wrong-name leaf is issued for
+	"_tlsa.dane.verif.test.",     // one underscore label; rest: a name the wrong-name leaf is issued for
+	"_25._TCP.MX.Verif.Test.",    // the usual name in another spelling
+	"mx.verif.test.",             // the host itself
+	"_25._tcp._tcp.verif.test.",  // more underscore labels than expected
+	".",                          // the root
+	"_25._tcp.mx.verif.test",     // not fully qualified (in-memory records only)
+	"",                           // empty (in-memory records only)
 }
 
 // owners that survive a trip over the wire unchanged
@@ -86,6 +90,8 @@ func c13OwnerIndex(name string) int {
 
 type c13PKI struct {
 	root, inter, leaf, expLeaf, wrongLeaf, canonLeaf, selfCA, foreign *x509.Certificate
+	// private keys of the certificates a server can present as its own (op `attempt`)
+	keys map[*x509.Certificate]*ecdsa.PrivateKey
 }
 
 func c13Key(t *testing.T) *ecdsa.PrivateKey {
@@ -142,23 +148,25 @@ func c13Leaf(cn, name string, from, to time.Time) *x509.Certificate {
 func c13MakePKI(t *testing.T) *c13PKI {
 	now := time.Now()
 	year := 365 * 24 * time.Hour
-	p := &c13PKI{}
+	p := &c13PKI{keys: map[*x509.Certificate]*ecdsa.PrivateKey{}}
 	rootK, interK, foreignK, selfK := c13Key(t), c13Key(t), c13Key(t), c13Key(t)
+	leafK, expK, wrongK, canonK := c13Key(t), c13Key(t), c13Key(t), c13Key(t)
 	p.root = c13Sign(t, c13CA("verif root", now), nil, rootK, nil)
 	p.inter = c13Sign(t, c13CA("verif intermediate", now), p.root, interK, rootK)
 	p.foreign = c13Sign(t, c13CA("verif foreign root", now), nil, foreignK, nil)
-	p.leaf = c13Sign(t, c13Leaf("leaf", c13MX, now.Add(-year), now.Add(10*year)), p.inter, c13Key(t), interK)
-	p.expLeaf = c13Sign(t, c13Leaf("expired leaf", c13MX, now.Add(-2*year), now.Add(-year)), p.inter, c13Key(t), interK)
+	p.leaf = c13Sign(t, c13Leaf("leaf", c13MX, now.Add(-year), now.Add(10*year)), p.inter, leafK, interK)
+	p.expLeaf = c13Sign(t, c13Leaf("expired leaf", c13MX, now.Add(-2*year), now.Add(-year)), p.inter, expK, interK)
 	wrong := c13Leaf("wrong-name leaf", "other.verif.test", now.Add(-year), now.Add(10*year))
 	// valid for the names around the MX name, not for it
 	wrong.DNSNames = append(wrong.DNSNames, "dane.verif.test", "verif.test", "*.mx.verif.test", "tcp.verif.test", "test")
-	p.wrongLeaf = c13Sign(t, wrong, p.inter, c13Key(t), interK)
+	p.wrongLeaf = c13Sign(t, wrong, p.inter, wrongK, interK)
 	// issued for the canonical name an aliased MX name points to — not for the MX host name
-	p.canonLeaf = c13Sign(t, c13Leaf("canonical-name leaf", strings.TrimSuffix(c13Canon, "."), now.Add(-year), now.Add(10*year)), p.inter, c13Key(t), interK)
+	p.canonLeaf = c13Sign(t, c13Leaf("canonical-name leaf", strings.TrimSuffix(c13Canon, "."), now.Add(-year), now.Add(10*year)), p.inter, canonK, interK)
 	self := c13CA("self-signed ca leaf", now)
 	self.DNSNames = []string{c13MX}
 	self.ExtKeyUsage = []x509.ExtKeyUsage{x509.ExtKeyUsageServerAuth}
 	p.selfCA = c13Sign(t, self, nil, selfK, nil)
+	p.keys[p.leaf], p.keys[p.expLeaf], p.keys[p.wrongLeaf], p.keys[p.canonLeaf], p.keys[p.selfCA] = leafK, expK, wrongK, canonK, selfK
 	return p
 }
 
@@ -174,6 +182,9 @@ type c13Chain struct {
 	// tables for the model, computed once with the real library primitives
 	caBits string
 	vBits  string
+	// the same table for an empty reference identifier (crypto/x509 then checks no name) and for
+	// c13OtherName: what verifyDANE would compute on a connection state with another ServerName
+	vBitsNone, vBitsOther string
 }
 
 // chain kinds; the first five are the property's, the others widen the space
@@ -231,6 +242,29 @@ func c13MakeChains(t *testing.T, p *c13PKI) map[string]*c13Chain {
 			v.WriteString(c13b(err == nil))
 		}
 		c.vBits = v.String()
+		for _, alt := range []struct {
+			name string
+			dst  *string
+		}{{"", &c.vBitsNone}, {c13OtherName, &c.vBitsOther}} {
+			var vb strings.Builder
+			for mask := 0; mask < 1<<n; mask++ {
+				if n == 0 {
+					vb.WriteString("0")
+					break
+				}
+				roots, inters := x509.NewCertPool(), x509.NewCertPool()
+				for j, crt := range c.certs {
+					if mask&(1<<j) != 0 {
+						roots.AddCert(crt)
+					} else {
+						inters.AddCert(crt)
+					}
+				}
+				_, err := c.certs[0].Verify(x509.VerifyOptions{DNSName: alt.name, Roots: roots, Intermediates: inters})
+				vb.WriteString(c13b(err == nil))
+			}
+			*alt.dst = vb.String()
+		}
 		// the two laws C13_authenticates_iff_spec assumes of x509, observed on this chain: an empty
 		// (non-nil) root pool verifies nothing; pools are sets (order and repetition of AddCert
 		// calls do not matter)
@@ -316,9 +350,39 @@ type c13Rec struct {
 	target         byte
 	dsel, dmt      uint8
 	owner          uint8 // index into c13Owners
+	// def: the association data is not what (dsel, dmt) yield but a deformation of it, of a length
+	// no digest of that matching type has — 0 none; 't' last byte missing (31-byte "SHA-256"),
+	// 'e' empty, 'o' one byte too many, 'h' first half only, 's' the digest of the other size
+	// (SHA-512 where SHA-256 is declared and vice versa; a SHA-256 digest where the full data is).
+	// Such a record can match nothing; it is a usable record all the same when its usage, selector
+	// and matching type are (RFC 7672 §3.1).
+	def byte
 }
 
-func (r c13Rec) kind() string { return fmt.Sprintf("%c%d%d", r.target, r.dsel, r.dmt) }
+const c13Defs = "teohs"
+
+func (r c13Rec) kind() string {
+	if r.def != 0 {
+		return fmt.Sprintf("%c%d%d%c", r.target, r.dsel, r.dmt, r.def)
+	}
+	return fmt.Sprintf("%c%d%d", r.target, r.dsel, r.dmt)
+}
+
+func c13Deform(b []byte, def byte, other []byte) []byte {
+	switch def {
+	case 't':
+		return append([]byte(nil), b[:len(b)-1]...)
+	case 'e':
+		return nil
+	case 'o':
+		return append(append([]byte(nil), b...), 0x5a)
+	case 'h':
+		return append([]byte(nil), b[:len(b)/2]...)
+	case 's':
+		return other
+	}
+	return b
+}
 
 func c13Select(c *x509.Certificate, sel uint8) []byte {
 	if sel == 1 {
@@ -365,11 +429,15 @@ func (w *c13World) targetCert(r c13Rec, ch *c13Chain) *x509.Certificate {
 // association data of the record (bytes)
 func (w *c13World) data(r c13Rec, ch *c13Chain) []byte {
 	c := w.targetCert(r, ch)
-	if c == nil {
-		// matches nothing: a digest of the right length of something that is no certificate
-		return c13Hash([]byte("verif: no such certificate "+r.kind()), map[uint8]uint8{0: 1, 1: 1, 2: 2}[r.dmt])
+	src := []byte("verif: no such certificate " + fmt.Sprintf("%c%d%d", r.target, r.dsel, r.dmt))
+	dmt := map[uint8]uint8{0: 1, 1: 1, 2: 2}[r.dmt] // matches nothing: a digest of the right length of something that is no certificate
+	if c != nil {
+		src, dmt = c13Select(c, r.dsel%2), r.dmt%3
 	}
-	return c13Hash(c13Select(c, r.dsel%2), r.dmt%3)
+	if r.def == 0 {
+		return c13Hash(src, dmt)
+	}
+	return c13Deform(c13Hash(src, dmt), r.def, c13Hash(src, map[uint8]uint8{0: 1, 1: 2, 2: 1}[dmt]))
 }
 
 func (w *c13World) tlsa(r c13Rec, ch *c13Chain) dns.TLSA {
@@ -413,12 +481,13 @@ func c13Tag(sel, mt uint8, data []byte, ch *c13Chain) int {
 }
 
 func (w *c13World) recToken(r c13Rec, ch *c13Chain) string {
-	return fmt.Sprintf("%d.%d.%d.%s.%d.%d", r.usage, r.sel, r.mt, r.kind(), c13Tag(r.sel, r.mt, w.data(r, ch), ch), r.owner)
+	data := w.data(r, ch)
+	return fmt.Sprintf("%d.%d.%d.%s.%d.%d.%d", r.usage, r.sel, r.mt, r.kind(), c13Tag(r.sel, r.mt, data, ch), r.owner, len(data))
 }
 
 func c13ParseRec(tok string) (c13Rec, error) {
 	p := strings.Split(tok, ".")
-	if len(p) < 4 || len(p[3]) != 3 {
+	if len(p) < 4 || (len(p[3]) != 3 && !(len(p[3]) == 4 && strings.IndexByte(c13Defs, p[3][3]) >= 0)) {
 		return c13Rec{}, fmt.Errorf("bad record token %q", tok)
 	}
 	var v [3]uint8
@@ -430,7 +499,10 @@ func c13ParseRec(tok string) (c13Rec, error) {
 		v[i] = uint8(x)
 	}
 	rec := c13Rec{usage: v[0], sel: v[1], mt: v[2], target: p[3][0], dsel: p[3][1] - '0', dmt: p[3][2] - '0'}
-	// usage.selector.mtype.kind.tag.owner (op tokens) or usage.selector.mtype.kind.o<owner> (zone codes)
+	if len(p[3]) == 4 {
+		rec.def = p[3][3]
+	}
+	// usage.selector.mtype.kind.tag.owner.dlen (op tokens) or usage.selector.mtype.kind.o<owner> (zone codes)
 	otok := ""
 	if len(p) >= 6 {
 		otok = p[5]
@@ -492,7 +564,27 @@ func c13RandRec(r *vh.Rng) c13Rec {
 		rec.dsel, rec.dmt = uint8(r.Intn(2)), uint8(r.Intn(3))
 	}
 	rec.owner = c13RandOwner(r, len(c13Owners))
+	if r.Chance(10) {
+		rec.def = c13Defs[r.Intn(len(c13Defs))]
+	}
 	return rec
+}
+
+// the usable record types, association data from leaf / intermediate / root, under every deformation
+func c13MalformedTypes() []c13Rec {
+	var out []c13Rec
+	for _, u := range []uint8{2, 3} {
+		for _, s := range []uint8{0, 1} {
+			for _, m := range []uint8{0, 1, 2} {
+				for _, tg := range []byte{'L', 'I', 'R'} {
+					for i := range c13Defs {
+						out = append(out, c13Rec{usage: u, sel: s, mt: m, target: tg, dsel: s, dmt: m, def: c13Defs[i]})
+					}
+				}
+			}
+		}
+	}
+	return out
 }
 
 // the record types of the property's quantifier: usage 0-3 and out of range, selector 0-1 and out
@@ -672,6 +764,11 @@ func (w *c13World) verifyCase(out *vh.Out, recs []c13Rec, ck string, hs bool, st
 		out.Stat("verify/outcome:" + obs)
 		for _, r := range recs {
 			out.Stat(fmt.Sprintf("verify/rec-owner:%d", r.owner))
+			if r.def != 0 {
+				out.Stat("verify/rec-data:malformed-" + string(r.def))
+			} else {
+				out.Stat("verify/rec-data:well-formed")
+			}
 			switch {
 			case c13Usable(r.usage, r.sel, r.mt) && r.usage == 3:
 				out.Stat("verify/rec:usable-ee")
@@ -780,6 +877,28 @@ func TestVerifC13Verify(t *testing.T) {
 		}
 	}
 	out.Note(fmt.Sprintf("verify: usable record types x %d other owner names x %d chains: %d cases", len(c13Owners)-1, len(c13ChainKinds), cnt1b))
+
+	// (1c) association data of a wrong length (truncated, empty, over-long, half, the other digest
+	// size): every usable record type, alone — with and without a handshake — and next to a
+	// well-formed record that does / does not match
+	cnt1c := 0
+	for _, a := range c13MalformedTypes() {
+		for _, ck := range c13ChainKinds {
+			if !vh.Thorough() && ck != "LIR" && ck != "L" && ck != "W" && ck != "S" {
+				continue
+			}
+			w.verifyCase(out, []c13Rec{a}, ck, true, true)
+			cnt1c++
+		}
+		w.verifyCase(out, []c13Rec{a}, "LIR", false, true)
+		w.verifyCase(out, []c13Rec{a}, "E", false, true)
+		good := c13Rec{usage: 2, sel: 1, mt: 1, target: 'R', dsel: 1, dmt: 1}
+		bad := c13Rec{usage: 3, sel: 1, mt: 1, target: 'N', dsel: 1, dmt: 1}
+		w.verifyCase(out, c13Shuffle(rng, []c13Rec{a, good}), "LIR", true, true)
+		w.verifyCase(out, c13Shuffle(rng, []c13Rec{a, bad}), "LIR", true, true)
+		cnt1c += 4
+	}
+	out.Note(fmt.Sprintf("verify: usable record types with malformed association data: %d cases", cnt1c))
 
 	// (2) every multiset of size 2 over the stated record types, completed handshake (without a
 	// handshake the verdict only depends on emptiness: sampled below): quick on the full chain,
@@ -1273,12 +1392,12 @@ func (w *c13World) rrToken(rr dns.TLSA, ch *c13Chain) string {
 	if err != nil {
 		return "bad-hex"
 	}
-	return fmt.Sprintf("%d.%d.%d.x.%d.%d", rr.Usage, rr.Selector, rr.MatchingType, c13Tag(rr.Selector, rr.MatchingType, data, ch), c13OwnerIndex(rr.Hdr.Name))
+	return fmt.Sprintf("%d.%d.%d.x.%d.%d.%d", rr.Usage, rr.Selector, rr.MatchingType, c13Tag(rr.Selector, rr.MatchingType, data, ch), c13OwnerIndex(rr.Hdr.Name), len(data))
 }
 
 func (w *c13World) rrKey(rr dns.TLSA, ch *c13Chain) string {
 	data, _ := hex.DecodeString(rr.Certificate)
-	return fmt.Sprintf("%d.%d.%d.%d.%d", rr.Usage, rr.Selector, rr.MatchingType, c13Tag(rr.Selector, rr.MatchingType, data, ch), c13OwnerIndex(rr.Hdr.Name))
+	return fmt.Sprintf("%d.%d.%d.%d.%d.%d", rr.Usage, rr.Selector, rr.MatchingType, c13Tag(rr.Selector, rr.MatchingType, data, ch), c13OwnerIndex(rr.Hdr.Name), len(data))
 }
 
 func (w *c13World) ansToken(ad bool, recs []dns.TLSA, err error, ch *c13Chain) string {
@@ -1357,30 +1476,35 @@ func c13StartDNS(t *testing.T) *c13DNS {
 // the resolver answers the model is parametric in, obtained by asking the same server through the
 // real ExtResolver
 func (w *c13World) oracle(d *c13DNS, ch *c13Chain) (ck, cn, trTok, tmTok string, rname string) {
+	return w.oracleFor(d, ch, c13MXFQ)
+}
+
+// mxfq: the MX host name as the caller spells it (fully qualified)
+func (w *c13World) oracleFor(d *c13DNS, ch *c13Chain, mxfq string) (ck, cn, trTok, tmTok string, rname string) {
 	ctx, cancel := context.WithTimeout(context.Background(), 30*time.Second)
 	defer cancel()
-	adA, rn, err := d.ext.CheckCNAMEAD(ctx, c13MXFQ)
+	adA, rn, err := d.ext.CheckCNAMEAD(ctx, mxfq)
 	rname = rn
 	switch {
 	case err != nil:
 		ck = "e:" + c13LErr(err)
 	case rn == "":
 		ck = "ok:" + c13b(adA) + ":E"
-	case rn == c13MXFQ:
+	case rn == mxfq:
 		ck = "ok:" + c13b(adA) + ":S"
 	default:
 		ck = "ok:" + c13b(adA) + ":O"
 	}
-	cad, _, err := d.ext.AuthLookupCNAME(ctx, c13MXFQ)
+	cad, _, err := d.ext.AuthLookupCNAME(ctx, mxfq)
 	if err != nil {
 		cn = "e:" + c13LErr(err)
 	} else {
 		cn = "ok:" + c13b(cad)
 	}
-	ad, recs, err := d.ext.AuthLookupTLSA(ctx, "25", "tcp", c13MXFQ)
+	ad, recs, err := d.ext.AuthLookupTLSA(ctx, "25", "tcp", mxfq)
 	tmTok = w.ansToken(ad, recs, err, ch)
 	trTok = tmTok
-	if rn != "" && rn != c13MXFQ {
+	if rn != "" && rn != mxfq {
 		ad, recs, err = d.ext.AuthLookupTLSA(ctx, "25", "tcp", rn)
 		trTok = w.ansToken(ad, recs, err, ch)
 	}
@@ -1492,25 +1616,52 @@ func (w *c13World) discCase(t *testing.T, out *vh.Out, z c13Zone) {
 	if (zt.addrFails || zt.lookupFails) && err == nil {
 		out.Violation("C13/lookup-failure-ignored", op, detail)
 	}
-	if len(recs) > 0 && !zt.incoherent {
-		// the records must be one of the two published RRsets, and that one must be signed, and
-		// the host secure
-		keys := func(rs []c13Rec) string {
+	if !zt.incoherent {
+		keys := func(rs []c13Rec) []string {
 			var p []string
 			for _, r := range rs {
-				p = append(p, fmt.Sprintf("%d.%d.%d.%d.%d", r.usage, r.sel, r.mt, c13Tag(r.sel, r.mt, w.data(r, ch), ch), r.owner))
+				data := w.data(r, ch)
+				p = append(p, fmt.Sprintf("%d.%d.%d.%d.%d.%d", r.usage, r.sel, r.mt, c13Tag(r.sel, r.mt, data, ch), r.owner, len(data)))
 			}
-			return strings.Join(p, ",")
+			return p
 		}
 		var got []string
 		for _, rr := range recs {
 			got = append(got, w.rrKey(rr, ch))
 		}
-		g := strings.Join(got, ",")
-		fromR := zt.alias && z.r == "s" && g == keys(z.recsR)
-		fromM := z.m == "s" && g == keys(z.recsM)
-		if !zt.hostSecure || !(fromR || fromM) {
-			out.Violation("C13/insecure-rrset-used", op, detail)
+		// sub-multiset test, order kept
+		within := func(part, whole []string) bool {
+			i := 0
+			for _, k := range whole {
+				if i < len(part) && part[i] == k {
+					i++
+				}
+			}
+			return i == len(part)
+		}
+		if len(recs) > 0 {
+			// the records must come from one of the two published RRsets, and that one must be signed,
+			// and the host secure
+			fromR := zt.alias && z.r == "s" && within(got, keys(z.recsR))
+			fromM := z.m == "s" && within(got, keys(z.recsM))
+			if !zt.hostSecure || !(fromR || fromM) {
+				out.Violation("C13/insecure-rrset-used", op, detail)
+			}
+		}
+		// the authenticated RRset that governs this MX reaches the decision whole: every record of it
+		// — usable or not, with association data of whatever length — counts (a record forces TLS;
+		// a usable one that matches nothing gets the connection refused)
+		if err == nil && zt.hostSecure && !zt.addrFails && !zt.lookupFails {
+			var gov []c13Rec
+			switch {
+			case zt.secureR:
+				gov = z.recsR
+			case z.m == "s":
+				gov = z.recsM
+			}
+			if len(gov) > 0 && !within(keys(gov), got) {
+				out.Violation("C13/published-record-not-delivered", op, fmt.Sprintf("published %v, delivered %v", keys(gov), got))
+			}
 		}
 	}
 	out.Stat("disc/zone-addr:" + z.a)
@@ -1587,11 +1738,40 @@ func (w *c13World) fillZoneRecs(rng *vh.Rng, z *c13Zone) {
 		}
 		return rs
 	}
+	// association data of a length no digest has: the whole RRset (a zone editing mistake repeated
+	// on every record), or one record next to well-formed ones; now and then an RRset of unusable
+	// records only
+	bend := func(rs []c13Rec) []c13Rec {
+		switch {
+		case rng.Chance(22):
+			for i := range rs {
+				if !c13Usable(rs[i].usage, rs[i].sel, rs[i].mt) {
+					rs[i].usage, rs[i].sel, rs[i].mt = uint8(2+rng.Intn(2)), uint8(rng.Intn(2)), uint8(rng.Intn(3))
+					rs[i].dsel, rs[i].dmt = rs[i].sel, rs[i].mt
+				}
+				rs[i].def = c13Defs[rng.Intn(len(c13Defs))]
+			}
+		case rng.Chance(15):
+			rs[rng.Intn(len(rs))].def = c13Defs[rng.Intn(len(c13Defs))]
+		case rng.Chance(10):
+			for i := range rs {
+				switch rng.Intn(3) {
+				case 0:
+					rs[i].usage = []uint8{0, 1, 4, 255}[rng.Intn(4)]
+				case 1:
+					rs[i].sel = []uint8{2, 255}[rng.Intn(2)]
+				default:
+					rs[i].mt = []uint8{3, 255}[rng.Intn(2)]
+				}
+			}
+		}
+		return rs
+	}
 	if z.r == "s" || z.r == "i" {
-		z.recsR = own(gen(), 1)
+		z.recsR = own(bend(gen()), 1)
 	}
 	if z.m == "s" || z.m == "i" {
-		z.recsM = own(gen(), 0)
+		z.recsM = own(bend(gen()), 0)
 	}
 	z.f = c13FailRcodes[rng.Intn(len(c13FailRcodes))]
 }
@@ -2441,4 +2621,731 @@ func TestVerifC13Resolver(t *testing.T) {
 		w.netCase(t, out, env, n, true, true)
 	}
 	out.Note(fmt.Sprintf("resolver: TCP queries received by the listeners: %d", env.a.tcpQueries+env.b.tcpQueries))
+}
+
+// ---------------------------------------------------------------- connect() in front of verifyDANE
+//
+// op `attempt`: the real remoteDelivery.attemptMX — PrepareConn (discovery through the real
+// ExtResolver against the scripted DNS server), connect() (STARTTLS, the retry with
+// InsecureSkipVerify after a verification error, the plaintext fall-back) against a scripted SMTP
+// server that presents a runtime-generated chain, then CheckConn on the connection state the real
+// code produced. The connection state verifyDANE sees is the one crypto/tls reports for the
+// handshake connect() actually made — its ServerName is the reference identifier of the DANE-TA
+// path validation.
+
+// c13SMTP is a scripted SMTP server. Per connection of a case (in the order they arrive) a mode:
+//
+//	T  STARTTLS offered, the handshake is served with the case's chain
+//	N  STARTTLS not offered
+//	R  STARTTLS offered, the command answered 454
+//	H  STARTTLS offered and accepted, the connection closed instead of a handshake
+//	D  connection closed before the greeting
+type c13SMTP struct {
+	ln    net.Listener
+	mu    sync.Mutex
+	modes string
+	cert  tls.Certificate
+	conns []*c13SMTPConn
+	wg    sync.WaitGroup
+}
+
+// what the server saw on one connection
+type c13SMTPConn struct {
+	mode    byte
+	offered bool
+	hsTried bool
+	hsOK    bool
+	sni     string
+}
+
+func c13StartSMTP(t *testing.T) *c13SMTP {
+	ln, err := net.Listen("tcp4", "127.0.0.1:0")
+	if err != nil {
+		t.Fatal(err)
+	}
+	s := &c13SMTP{ln: ln}
+	go func() {
+		for {
+			c, err := ln.Accept()
+			if err != nil {
+				return
+			}
+			s.mu.Lock()
+			mode := byte('T')
+			if k := len(s.conns); k < len(s.modes) {
+				mode = s.modes[k]
+			} else if len(s.modes) > 0 {
+				mode = s.modes[len(s.modes)-1]
+			}
+			ev := &c13SMTPConn{mode: mode}
+			s.conns = append(s.conns, ev)
+			cert := s.cert
+			s.wg.Add(1)
+			s.mu.Unlock()
+			go func() {
+				defer s.wg.Done()
+				s.serve(c, ev, cert)
+			}()
+		}
+	}()
+	return s
+}
+
+func (s *c13SMTP) Close() { _ = s.ln.Close() }
+
+// arm: the script of the next case
+func (s *c13SMTP) arm(modes string, cert tls.Certificate) {
+	s.mu.Lock()
+	s.modes, s.cert, s.conns = modes, cert, nil
+	s.mu.Unlock()
+}
+
+// events: waits until every connection of the case is over
+func (s *c13SMTP) events() []c13SMTPConn {
+	s.wg.Wait()
+	s.mu.Lock()
+	defer s.mu.Unlock()
+	var out []c13SMTPConn
+	for _, c := range s.conns {
+		out = append(out, *c)
+	}
+	return out
+}
+
+func (s *c13SMTP) serve(c net.Conn, ev *c13SMTPConn, cert tls.Certificate) {
+	defer func() { _ = c.Close() }()
+	_ = c.SetDeadline(time.Now().Add(2 * time.Minute))
+	if ev.mode == 'D' {
+		return
+	}
+	rd := bufio.NewReader(c)
+	say := func(line string) bool {
+		_, err := c.Write([]byte(line + "\r\n"))
+		return err == nil
+	}
+	if !say("220 mx.verif.test ESMTP verif") {
+		return
+	}
+	inTLS := false
+	for {
+		line, err := rd.ReadString('\n')
+		if err != nil {
+			return
+		}
+		cmd := strings.ToUpper(strings.TrimSpace(line))
+		switch {
+		case strings.HasPrefix(cmd, "EHLO"):
+			offer := !inTLS && ev.mode != 'N'
+			if offer {
+				s.mu.Lock()
+				ev.offered = true
+				s.mu.Unlock()
+				if !say("250-mx.verif.test") || !say("250-STARTTLS") || !say("250 8BITMIME") {
+					return
+				}
+			} else if !say("250-mx.verif.test") || !say("250 8BITMIME") {
+				return
+			}
+		case strings.HasPrefix(cmd, "HELO"):
+			if !say("250 mx.verif.test") {
+				return
+			}
+		case cmd == "STARTTLS":
+			if inTLS || ev.mode == 'N' {
+				if !say("503 5.5.1 no") {
+					return
+				}
+				continue
+			}
+			if ev.mode == 'R' {
+				if !say("454 4.7.0 TLS not available due to temporary reason") {
+					return
+				}
+				continue
+			}
+			if !say("220 2.0.0 go ahead") {
+				return
+			}
+			s.mu.Lock()
+			ev.hsTried = true
+			s.mu.Unlock()
+			if ev.mode == 'H' {
+				return
+			}
+			cfg := &tls.Config{
+				Certificates: []tls.Certificate{cert},
+				GetConfigForClient: func(h *tls.ClientHelloInfo) (*tls.Config, error) {
+					s.mu.Lock()
+					ev.sni = h.ServerName
+					s.mu.Unlock()
+					return nil, nil
+				},
+			}
+			tc := tls.Server(c, cfg)
+			if err := tc.Handshake(); err != nil {
+				return
+			}
+			s.mu.Lock()
+			ev.hsOK = true
+			s.mu.Unlock()
+			c, rd, inTLS = tc, bufio.NewReader(tc), true
+		case cmd == "QUIT":
+			say("221 2.0.0 bye")
+			return
+		default:
+			if !say("250 2.0.0 ok") {
+				return
+			}
+		}
+	}
+}
+
+// c13Spy is a policy placed in front of the DANE policy: it records what attemptMX hands to
+// CheckConn (the state of the connection connect() left) and never has an opinion.
+type c13Spy struct {
+	called bool
+	st     tls.ConnectionState
+	lvl    module.TLSLevel
+	mx     string
+}
+
+func (s *c13Spy) PrepareDomain(ctx context.Context, domain string) {}
+func (s *c13Spy) PrepareConn(ctx context.Context, mx string)       {}
+func (s *c13Spy) Reset(*module.MsgMetadata)                        {}
+func (s *c13Spy) CheckMX(ctx context.Context, mxLevel module.MXLevel, domain, mx string, dnssec bool) (module.MXLevel, error) {
+	return module.MXNone, nil
+}
+
+func (s *c13Spy) CheckConn(ctx context.Context, mxLevel module.MXLevel, tlsLevel module.TLSLevel, domain, mx string, st tls.ConnectionState) (module.TLSLevel, error) {
+	s.called, s.st, s.lvl, s.mx = true, st, tlsLevel, mx
+	return module.TLSNone, nil
+}
+
+// spellings of the MX host name as attemptMX can be handed it (record.Host)
+var c13HostSpellings = []string{"mx.verif.test.", "mx.verif.test", "MX.Verif.Test."}
+
+// c13Att is one `attempt` case.
+//
+//	modes: the server's behaviour on the 1st, 2nd, 3rd connection (c13SMTP)
+//	pool:  p the client trusts no CA (private-CA world: the first handshake fails verification),
+//	       t the client trusts the root of the chains
+//	base:  d rd.rt.tlsConfig as maddy builds it (no ServerName), o it carries ServerName =
+//	       c13OtherName, n there is no TLS configuration (nil)
+//	host:  index into c13HostSpellings
+//	hr:    the DANE policy has a resolver
+type c13Att struct {
+	zone  c13Zone
+	ck    string
+	modes string
+	pool  byte
+	base  byte
+	host  int
+	hr    bool
+}
+
+func (a c13Att) code() string {
+	return fmt.Sprintf("%s;%s;%s;%c;%c;%d", a.zone.code(), a.ck, a.modes, a.pool, a.base, a.host)
+}
+
+func c13ParseAtt(code string, hr bool) (c13Att, error) {
+	p := strings.Split(code, ";")
+	if len(p) != 8 || len(p[4]) != 3 || len(p[5]) != 1 || len(p[6]) != 1 {
+		return c13Att{}, fmt.Errorf("bad attempt code %q", code)
+	}
+	z, err := c13ParseZone(code)
+	if err != nil {
+		return c13Att{}, err
+	}
+	h, err := strconv.Atoi(p[7])
+	if err != nil || h < 0 || h >= len(c13HostSpellings) || !strings.ContainsRune("pt", rune(p[5][0])) || !strings.ContainsRune("don", rune(p[6][0])) {
+		return c13Att{}, fmt.Errorf("bad attempt code %q", code)
+	}
+	for _, m := range p[4] {
+		if !strings.ContainsRune("TNRHD", m) {
+			return c13Att{}, fmt.Errorf("bad attempt code %q", code)
+		}
+	}
+	return c13Att{zone: z, ck: p[3], modes: p[4], pool: p[5][0], base: p[6][0], host: h, hr: hr}, nil
+}
+
+var c13QuietLog = log.Logger{Out: log.NopOutput{}, Name: "c13"}
+
+// does crypto/tls' own verification of the presented chain pass, against `pool`, for `name`?
+// (what the client does without InsecureSkipVerify: roots = RootCAs, intermediates = the other
+// presented certificates, DNSName = Config.ServerName)
+func c13PKIX(ch *c13Chain, pool *x509.CertPool, name string) bool {
+	inters := x509.NewCertPool()
+	for _, c := range ch.certs[1:] {
+		inters.AddCert(c)
+	}
+	_, err := ch.certs[0].Verify(x509.VerifyOptions{DNSName: name, Roots: pool, Intermediates: inters})
+	return err == nil
+}
+
+func (w *c13World) tlsCert(ch *c13Chain) tls.Certificate {
+	var der [][]byte
+	for _, c := range ch.certs {
+		der = append(der, c.Raw)
+	}
+	return tls.Certificate{Certificate: der, PrivateKey: w.pki.keys[ch.certs[0]], Leaf: ch.certs[0]}
+}
+
+func c13CallAttempt(rd *remoteDelivery, conn *mxConn, host string) (err error, panicked bool) {
+	defer func() {
+		if r := recover(); r != nil {
+			panicked = true
+		}
+	}()
+	ctx, cancel := context.WithTimeout(context.Background(), 2*time.Minute)
+	defer cancel()
+	err = rd.attemptMX(ctx, conn, &net.MX{Host: host, Pref: 10})
+	return
+}
+
+func c13TLSLevel(l module.TLSLevel) string {
+	switch l {
+	case module.TLSNone:
+		return "none"
+	case module.TLSEncrypted:
+		return "enc"
+	case module.TLSAuthenticated:
+		return "auth"
+	}
+	return fmt.Sprintf("level%d", int(l))
+}
+
+// c13Sink: where a case writes (vh.Out, or a buffer flushed in case order when cases run on
+// several workers)
+type c13Sink interface {
+	Corr(op, observed string)
+	Violation(sig, op, detail string)
+	Stat(key string)
+}
+
+type c13Buf struct{ items [][4]string }
+
+func (b *c13Buf) Corr(op, observed string) { b.items = append(b.items, [4]string{"C", op, observed}) }
+func (b *c13Buf) Violation(sig, op, detail string) {
+	b.items = append(b.items, [4]string{"V", sig, op, detail})
+}
+func (b *c13Buf) Stat(key string) { b.items = append(b.items, [4]string{"S", key}) }
+func (b *c13Buf) flush(out *vh.Out) {
+	for _, it := range b.items {
+		switch it[0] {
+		case "C":
+			out.Corr(it[1], it[2])
+		case "V":
+			out.Violation(it[1], it[2], it[3])
+		case "S":
+			out.Stat(it[1])
+		}
+	}
+}
+
+// one worker's servers
+type c13AttEnv struct {
+	dns *c13DNS
+	srv *c13SMTP
+}
+
+func (w *c13World) attemptCase(out c13Sink, env *c13AttEnv, a c13Att) {
+	ch := w.chains[a.ck]
+	host := c13HostSpellings[a.host]
+	srv := env.srv
+	env.dns.set(w.script(a.zone, ch))
+	ock, ocn, trTok, tmTok, _ := w.oracleFor(env.dns, ch, dns.FQDN(host))
+
+	pool := x509.NewCertPool()
+	if a.pool == 't' {
+		pool.AddCert(w.pki.root)
+	}
+	var base *tls.Config
+	baseTok := "-"
+	switch a.base {
+	case 'd':
+		base, baseTok = &tls.Config{RootCAs: pool}, "-:0"
+	case 'o':
+		base, baseTok = &tls.Config{RootCAs: pool, ServerName: c13OtherName}, "1:0"
+	}
+	var atts []string
+	for i := 0; i < 3; i++ {
+		atts = append(atts, map[byte]string{'T': "111T", 'N': "101T", 'R': "110T", 'H': "111H", 'D': "000T"}[a.modes[i]])
+	}
+	// the X.509 tables for the three reference identifiers and crypto/tls' own verdict for the two
+	// names a configuration can carry
+	chainN := fmt.Sprintf("%s:%s:%s:%s%s", ch.token(), ch.vBitsNone, ch.vBitsOther, c13b(c13PKIX(ch, pool, host)), c13b(c13PKIX(ch, pool, c13OtherName)))
+	op := fmt.Sprintf("C13 attempt z=%s %s %s %s %s %s %s %s %s", a.code(), baseTok, strings.Join(atts, " "), c13b(a.hr), ock, ocn, trTok, tmTok, chainN)
+
+	srv.arm(a.modes, w.tlsCert(ch))
+	addr := srv.ln.Addr().String()
+	tgt := &Target{
+		name:     "remote",
+		hostname: "client.verif.test",
+		dialer: func(ctx context.Context, network, _ string) (net.Conn, error) {
+			return (&net.Dialer{}).DialContext(ctx, "tcp4", addr)
+		},
+		tlsConfig: base,
+		Log:       c13QuietLog,
+	}
+	spy := &c13Spy{}
+	pol := &danePolicy{log: c13QuietLog}
+	if a.hr {
+		pol.extResolver = env.dns.ext
+	}
+	rd := &remoteDelivery{
+		rt:       tgt,
+		Log:      c13QuietLog,
+		policies: []module.DeliveryMXAuthPolicy{spy, &daneDelivery{c: pol}},
+	}
+	conn := &mxConn{C: smtpconn.New(), domain: "verif.test", reuseLimit: 1, lastUseAt: time.Now()}
+	conn.Dialer = tgt.dialer
+	conn.Log = c13QuietLog
+	conn.Hostname = tgt.hostname
+	conn.AddrInSMTPMsg = true
+
+	err, panicked := c13CallAttempt(rd, conn, host)
+	lvl := conn.tlsLevel
+	if conn.C != nil && conn.Client() != nil {
+		if panicked {
+			_ = conn.DirectClose() // no QUIT on a connection in an unknown state
+		} else {
+			_ = conn.Close()
+		}
+	}
+	evs := srv.events()
+
+	// ---- observation
+	st := "-"
+	if spy.called {
+		name := "O"
+		switch {
+		case spy.st.ServerName == "":
+			name = "E"
+		case strings.EqualFold(spy.st.ServerName, strings.TrimSuffix(host, ".")):
+			name = "H"
+		}
+		st = fmt.Sprintf("%s:%s:%s", c13b(spy.st.HandshakeComplete), name, c13TLSLevel(spy.lvl))
+	}
+	var obs string
+	switch {
+	case panicked:
+		obs = "panic"
+	case err == nil:
+		obs = "ok " + c13TLSLevel(lvl)
+	case !spy.called:
+		obs = "connErr"
+	default:
+		obs = "refused " + c13ErrKind(err)
+	}
+	out.Corr(op, obs+" st="+st)
+
+	// ---- monitor: the property on the real execution. Ground truth: the zone (which RRset governs
+	// the MX), the records and the chain (by construction: what matches, to which anchors the leaf
+	// validly chains FOR THE MX HOST NAME), and what the SERVER saw of the connection that was left
+	// (did a handshake complete on it).
+	detail := fmt.Sprintf("err=%v level=%s state=%s server-side=%s", err, c13TLSLevel(lvl), st, c13ConnsString(evs))
+	if panicked {
+		out.Violation("C13/panic", op, "attemptMX panicked")
+		return
+	}
+	hs := len(evs) > 0 && evs[len(evs)-1].hsOK
+	if spy.called {
+		same := len(spy.st.PeerCertificates) == len(ch.certs)
+		for i := 0; same && i < len(ch.certs); i++ {
+			same = bytes.Equal(spy.st.PeerCertificates[i].Raw, ch.certs[i].Raw)
+		}
+		if spy.st.HandshakeComplete != hs || (hs && !same) || (!hs && len(spy.st.PeerCertificates) != 0) {
+			out.Violation("C13/conn-state-not-of-the-connection", op, detail)
+		}
+	}
+	zt := c13ZoneTruthOf(a.zone)
+	lookupFailed := zt.addrFails || zt.lookupFails
+	var recs []c13Rec
+	if !lookupFailed && zt.hostSecure {
+		switch {
+		case zt.secureR:
+			recs = a.zone.recsR
+		case a.zone.m == "s":
+			recs = a.zone.recsM
+		}
+	}
+	tr := w.truth(recs, ch)
+	// X.509 alone authenticates: the client trusts the root, the chain is complete and valid for
+	// the MX host name, and the one handshake that was made completed
+	pkix := a.base != 'n' && a.pool == 't' && (a.ck == "LI" || a.ck == "LIR") && len(evs) == 1 && hs
+	switch {
+	case !spy.called:
+		// connect() gave the MX up: nothing was decided
+	case zt.incoherent:
+	case !a.hr:
+		if err != nil || (lvl == module.TLSAuthenticated && !pkix) {
+			out.Violation("C13/conn-no-resolver-not-neutral", op, detail)
+		}
+	case lookupFailed:
+		if err == nil || !exterrors.IsTemporary(err) {
+			out.Violation("C13/lookup-error-not-temporary-refusal", op, detail)
+		}
+	default:
+		detail += fmt.Sprintf("; truth: records=%d usable=%v ee-match=%v ta-match=%v handshake=%v pkix=%v", tr.nrecs, tr.anyUsable, tr.eeMatch, tr.taMatch, hs, pkix)
+		if err == nil && lvl == module.TLSAuthenticated && !(hs && tr.matched()) && !pkix {
+			out.Violation("C13/authenticated-without-match", op, detail)
+		}
+		if tr.nrecs > 0 && !hs && err == nil {
+			out.Violation("C13/no-tls-not-refused", op, detail)
+		}
+		if hs && tr.anyUsable && !tr.matched() && err == nil {
+			out.Violation("C13/mismatch-not-refused", op, detail)
+		}
+		if !tr.anyUsable && hs && err != nil {
+			out.Violation("C13/unusable-only-not-neutral", op, detail)
+		}
+		if err == nil && lvl != module.TLSNone && !hs {
+			out.Violation("C13/conn-level-raised-with-error", op, detail)
+		}
+	}
+	out.Stat("attempt/outcome:" + obs)
+	out.Stat("attempt/state:" + st)
+	out.Stat("attempt/chain:" + a.ck)
+	out.Stat("attempt/modes:" + a.modes)
+	out.Stat(fmt.Sprintf("attempt/pool:%c base:%c host:%d resolver:%s", a.pool, a.base, a.host, c13b(a.hr)))
+	out.Stat(fmt.Sprintf("attempt/connections:%d", len(evs)))
+	out.Stat("attempt/server-side:" + c13ConnsString(evs))
+	out.Stat("attempt/path:" + tr.path(hs))
+}
+
+// what the server saw, connection by connection: mode, then h (handshake completed) / x (handshake
+// started, not completed) / p (plaintext only), then the SNI class (H the MX host, E none, O other)
+func c13ConnsString(evs []c13SMTPConn) string {
+	var p []string
+	for _, e := range evs {
+		s := string(e.mode)
+		switch {
+		case e.hsOK:
+			s += "h"
+		case e.hsTried:
+			s += "x"
+		default:
+			s += "p"
+		}
+		if e.hsTried && e.mode != 'H' {
+			switch {
+			case e.sni == "":
+				s += "E"
+			case strings.EqualFold(e.sni, c13MX):
+				s += "H"
+			default:
+				s += "O"
+			}
+		}
+		p = append(p, s)
+	}
+	return c13dash(strings.Join(p, ","))
+}
+
+func TestVerifC13Attempt(t *testing.T) {
+	out := vh.Open("c13_attempt")
+	defer out.Close()
+	w := c13NewWorld(t)
+	// the cases are independent of each other: they run on a few workers, each with its own DNS and
+	// SMTP server, and are written out in case order
+	const workers = 4
+	var envs []*c13AttEnv
+	for i := 0; i < workers; i++ {
+		e := &c13AttEnv{dns: c13StartDNS(t), srv: c13StartSMTP(t)}
+		defer e.dns.Close()
+		defer e.srv.Close()
+		envs = append(envs, e)
+	}
+	var cases []c13Att
+	runAll := func() {
+		bufs := make([]c13Buf, len(cases))
+		var wg sync.WaitGroup
+		for k := range envs {
+			wg.Add(1)
+			go func(k int) {
+				defer wg.Done()
+				for i := k; i < len(cases); i += len(envs) {
+					w.attemptCase(&bufs[i], envs[k], cases[i])
+				}
+			}(k)
+		}
+		wg.Wait()
+		for i := range bufs {
+			bufs[i].flush(out)
+		}
+	}
+
+	// self-check of the monitor's X.509 ground truth: with the root trusted exactly the complete,
+	// valid, right-name chains pass crypto/tls' verification for the MX host name (every spelling);
+	// with no CA trusted none does
+	trusted, none := x509.NewCertPool(), x509.NewCertPool()
+	trusted.AddCert(w.pki.root)
+	for _, ck := range c13ChainKinds {
+		if ck == "E" {
+			continue
+		}
+		for _, h := range c13HostSpellings {
+			if got, want := c13PKIX(w.chains[ck], trusted, h), ck == "LI" || ck == "LIR"; got != want {
+				t.Fatalf("c13 self-check: chain %s, root trusted, name %q: PKIX says %v, constructed as %v", ck, h, got, want)
+			}
+			if c13PKIX(w.chains[ck], none, h) {
+				t.Fatalf("c13 self-check: chain %s verifies against an empty root pool", ck)
+			}
+		}
+	}
+
+	if rp := vh.Replay(); rp != nil {
+		for _, op := range rp {
+			if !strings.HasPrefix(op, "C13 attempt ") {
+				continue
+			}
+			toks := strings.Fields(op)
+			if len(toks) < 8 {
+				t.Fatalf("cannot replay %q", op)
+			}
+			a, err := c13ParseAtt(strings.TrimPrefix(toks[2], "z="), toks[7] == "1")
+			if err != nil || w.chains[a.ck] == nil || a.ck == "E" {
+				t.Fatalf("cannot replay %q: %v", op, err)
+			}
+			cases = append(cases, a)
+		}
+		runAll()
+		return
+	}
+
+	rng := vh.NewRng(vh.Seed() + 1305).Fork()
+	chains := c13ChainKinds[:len(c13ChainKinds)-1] // every chain a server can present
+	rec := func(usage, sel, mt uint8, target byte) c13Rec {
+		return c13Rec{usage: usage, sel: sel, mt: mt, target: target, dsel: sel % 2, dmt: mt % 3}
+	}
+	zoneOf := func(recs ...c13Rec) c13Zone {
+		z := c13Zone{a: "s", c: "-", q: "-", r: "X", m: "s", f: 2, recsM: recs}
+		if len(recs) == 0 {
+			z.m = "X"
+		}
+		return z
+	}
+	malformed := rec(3, 1, 1, 'L')
+	malformed.def = 't'
+	sets := [][]c13Rec{
+		nil,
+		{rec(2, 0, 1, 'I')},
+		{rec(2, 1, 1, 'R')},
+		{rec(2, 0, 0, 'R')},
+		{rec(3, 1, 1, 'L')},
+		{rec(3, 1, 1, 'N')},
+		{rec(2, 1, 2, 'N')},
+		{rec(1, 1, 1, 'L')},
+		{rec(2, 0, 1, 'F')},
+		{malformed},
+		{rec(3, 0, 1, 'N'), rec(2, 1, 1, 'I')},
+	}
+	run := func(a c13Att) { cases = append(cases, a) }
+
+	// (1) the private-CA world: STARTTLS works, the first handshake fails verification, the second
+	// one is made without — every chain x every record set
+	for ci, ck := range chains {
+		for si, rs := range sets {
+			// quick: the full grid on the chains with a wrong-name / right-name leaf under the same
+			// anchors, two thirds of it (rotating with the seed) on the others
+			if !vh.Thorough() && ck != "W" && ck != "C" && ck != "LIR" && (ci+si+int(vh.Seed()))%3 == 0 {
+				continue
+			}
+			run(c13Att{zone: zoneOf(rs...), ck: ck, modes: "TTT", pool: 'p', base: 'd', hr: true})
+		}
+	}
+	// (2) the client trusts the root: the first handshake completes for the valid right-name chains,
+	// fails verification for the others (expired, wrong name, incomplete)
+	for _, ck := range chains {
+		for _, i := range []int{0, 1, 4, 5, 7} {
+			if !vh.Thorough() && (i == 4 || i == 7) && ck != "W" && ck != "LIR" {
+				continue
+			}
+			run(c13Att{zone: zoneOf(sets[i]...), ck: ck, modes: "TTT", pool: 't', base: 'd', hr: true})
+		}
+	}
+	// (2b) X.509 alone has authenticated the server (first handshake verified) and the RRset does not
+	// match: DANE still refuses
+	for _, ck := range []string{"LI", "LIR"} {
+		for _, i := range []int{6, 8, 9} {
+			run(c13Att{zone: zoneOf(sets[i]...), ck: ck, modes: "TTT", pool: 't', base: 'd', hr: true})
+		}
+	}
+	// (3) other handshake histories
+	for _, modes := range []string{"NNN", "RRR", "HTT", "THT", "TNT", "TRT", "TDT", "DTT", "HHH", "HNT", "TTN"} {
+		for _, ck := range []string{"LIR", "W", "L"} {
+			for _, i := range []int{0, 1, 5} {
+				if !vh.Thorough() && ck == "L" && i != 1 {
+					continue
+				}
+				run(c13Att{zone: zoneOf(sets[i]...), ck: ck, modes: modes, pool: 'p', base: 'd', hr: true})
+			}
+		}
+	}
+	// (4) the base configuration, the spelling of the MX host name, no resolver, other zones
+	for _, ck := range []string{"LIR", "W", "C", "LI"} {
+		for _, i := range []int{0, 1, 4} {
+			for _, pool := range []byte{'p', 't'} {
+				run(c13Att{zone: zoneOf(sets[i]...), ck: ck, modes: "TTT", pool: pool, base: 'o', hr: true})
+			}
+			run(c13Att{zone: zoneOf(sets[i]...), ck: ck, modes: "TTT", pool: 'p', base: 'n', hr: true})
+			for h := 1; h < len(c13HostSpellings); h++ {
+				run(c13Att{zone: zoneOf(sets[i]...), ck: ck, modes: "TTT", pool: []byte{'p', 't'}[h%2], base: 'd', host: h, hr: true})
+			}
+			run(c13Att{zone: zoneOf(sets[i]...), ck: ck, modes: "TTT", pool: 't', base: 'd', hr: false})
+		}
+		for _, z := range []c13Zone{
+			{a: "s", c: "-", q: "-", r: "X", m: "F", f: 2},
+			{a: "s", c: "-", q: "-", r: "X", m: "e", f: 2},
+			{a: "i", c: "-", q: "-", r: "X", m: "s", f: 2, recsM: sets[5]},
+			{a: "s", c: "-", q: "-", r: "X", m: "i", f: 2, recsM: sets[5]},
+			{a: "N", c: "-", q: "-", r: "X", m: "s", f: 2, recsM: sets[1]},
+			{a: "-", c: "ss", q: "-", r: "s", m: "s", f: 2, recsR: sets[1], recsM: sets[5]},
+		} {
+			run(c13Att{zone: z, ck: ck, modes: "TTT", pool: 'p', base: 'd', hr: true})
+		}
+	}
+	// (5) sampled
+	all := c13AllZones()
+	good := c13GoodZones(all)
+	modeSets := []string{"TTT", "TTT", "TTT", "TTT", "NNN", "HTT", "THT", "TNT", "TRT", "TDT", "TTH", "NTT", "RTT", "DTT", "TTD"}
+	n := vh.N(4000) / 60
+	for i := 0; i < n; i++ {
+		var z c13Zone
+		switch {
+		case rng.Chance(55):
+			z = zoneOf()
+			k := 1 + rng.Intn(3)
+			for j := 0; j < k; j++ {
+				r := rec(uint8(2+rng.Intn(2)), uint8(rng.Intn(2)), uint8(rng.Intn(3)), c13Targets[rng.Intn(len(c13Targets))])
+				if rng.Chance(12) {
+					r = c13RandRec(rng)
+					r.owner = 0
+				}
+				z.recsM = append(z.recsM, r)
+			}
+			z.m = "s"
+		case rng.Chance(70):
+			z = good[rng.Intn(len(good))]
+			w.fillZoneRecs(rng, &z)
+		default:
+			z = all[rng.Intn(len(all))]
+			w.fillZoneRecs(rng, &z)
+		}
+		a := c13Att{zone: z, ck: chains[rng.Intn(len(chains))], modes: modeSets[rng.Intn(len(modeSets))], pool: 'p', base: 'd', hr: !rng.Chance(5)}
+		if rng.Chance(50) {
+			a.ck = []string{"W", "C", "LIR", "X"}[rng.Intn(4)]
+		}
+		if rng.Chance(35) {
+			a.pool = 't'
+		}
+		if rng.Chance(12) {
+			a.base = "on"[rng.Intn(2)]
+		}
+		if rng.Chance(20) {
+			a.host = rng.Intn(len(c13HostSpellings))
+		}
+		run(a)
+	}
+	runAll()
 }
